@@ -160,14 +160,15 @@ def segment_stores(fn, unroll_zip=True):
                 except AnalysisError:
                     pass
                 continue
-            if isinstance(st, ast.AugAssign) and isinstance(st.target, ast.Name) and isinstance(st.op, ast.Add):
+            if isinstance(st, ast.AugAssign) and isinstance(st.target, ast.Name) and isinstance(st.op, (ast.Add, ast.Sub)):
                 cur = le.env.get(st.target.id)
                 if cur is None:
                     raise AnalysisError("augmented bound without value")
                 add = le.ev(st.value)
                 out_ = dict(cur)
+                sg = 1 if isinstance(st.op, ast.Add) else -1
                 for k, v in add.items():
-                    out_[k] = out_.get(k, 0) + v
+                    out_[k] = out_.get(k, 0) + sg * v
                 le.env[st.target.id] = {k: v for k, v in out_.items() if v}
                 continue
             if isinstance(st, ast.Assign) and isinstance(st.targets[0], ast.Subscript) and isinstance(st.targets[0].slice, ast.Slice):
